@@ -119,6 +119,7 @@ package db
 // Table leaf cell: varint payload size, varint rowid, payload (local part), [4-byte first overflow page].
 //@ func db.parseTableLeaf
 //@   pure
+//@   uses cell_defs
 //@   props C14 C01 C04 C05
 //@   requires legal_ps(pageSize)
 //@   ensures [short] tl_n1(mem(c), off(c), len(c)) == -1 || tl_n2(mem(c), off(c), len(c)) == -1 ==> err != nil
@@ -128,18 +129,22 @@ package db
 //@   ensures [inline] err == nil && r0.payload.Length <= x_table(pageSize) ==> r0.payload.Overflow == 0
 //@   ensures [spill] err == nil && r0.payload.Length > x_table(pageSize) ==> len(r0.payload.Payload) == local_size(r0.payload.Length, pageSize, x_table(pageSize)) && r0.payload.Overflow == zx32(be32(mem(c), off(c) + tl_hdr(mem(c), off(c), len(c)) + local_size(r0.payload.Length, pageSize, x_table(pageSize))))
 //@   ensures [wf] err == nil ==> wf_payload(r0.payload)
+//@   ensures [cell] err == nil ==> tl_cell_ok(r0, mem(c), reg(c), off(c), len(c), pageSize)
 
 // Table interior cell: 4-byte left child page, varint key.
 //@ func db.parseTableInterior
 //@   pure
+//@   uses cell_defs
 //@   props C14 C01 C04 C05
 //@   ensures [err] err != nil <==> (len(c) < 4 || ti_n(mem(c), off(c), len(c)) == -1)
 //@   ensures [left] err == nil ==> r0.left == zx32(be32(mem(c), off(c)))
 //@   ensures [key] err == nil ==> r0.key == ti_key(mem(c), off(c), len(c))
+//@   ensures [cell] err == nil ==> ti_cell_ok(r0, mem(c), off(c), len(c))
 
 // Index leaf cell: varint payload size, payload, [overflow page].
 //@ func db.parseIndexLeaf
 //@   pure
+//@   uses cell_defs
 //@   props C14 C02 C03 C13 C05
 //@   requires legal_ps(pageSize)
 //@   ensures [short] il_n1(mem(c), off(c), len(c)) == -1 ==> err != nil
@@ -148,10 +153,12 @@ package db
 //@   ensures [inline] err == nil && r0.Length <= x_index(pageSize) ==> r0.Overflow == 0
 //@   ensures [spill] err == nil && r0.Length > x_index(pageSize) ==> len(r0.Payload) == local_size(r0.Length, pageSize, x_index(pageSize)) && r0.Overflow == zx32(be32(mem(c), off(c) + il_n1(mem(c), off(c), len(c)) + local_size(r0.Length, pageSize, x_index(pageSize))))
 //@   ensures [wf] err == nil ==> wf_payload(r0)
+//@   ensures [cell] err == nil ==> il_cell_ok(r0, mem(c), reg(c), off(c), len(c), pageSize)
 
 // Index interior cell: 4-byte left child page, varint payload size, payload, [overflow page].
 //@ func db.parseIndexInterior
 //@   pure
+//@   uses cell_defs
 //@   props C14 C02 C03 C13 C05
 //@   requires legal_ps(pageSize)
 //@   ensures [short] len(c) < 4 || il_n1(mem(c), off(c) + 4, len(c) - 4) == -1 ==> err != nil
@@ -161,6 +168,7 @@ package db
 //@   ensures [inline] err == nil && r0.payload.Length <= x_index(pageSize) ==> r0.payload.Overflow == 0
 //@   ensures [spill] err == nil && r0.payload.Length > x_index(pageSize) ==> len(r0.payload.Payload) == local_size(r0.payload.Length, pageSize, x_index(pageSize)) && r0.payload.Overflow == zx32(be32(mem(c), off(c) + 4 + il_n1(mem(c), off(c) + 4, len(c) - 4) + local_size(r0.payload.Length, pageSize, x_index(pageSize))))
 //@   ensures [wf] err == nil ==> wf_payload(r0.payload)
+//@   ensures [cell] err == nil ==> ii_cell_ok(r0, mem(c), reg(c), off(c), len(c), pageSize)
 
 // ---------------------------------------------------------------------------------------
 // Record format (file format section 2.1): header-size varint, serial-type varints, then the
@@ -334,3 +342,97 @@ package db
 //@   uses ascii_lower
 //@   opt establishes=fold_fn
 //@   ensures [fold] (r >= 65 && r <= 90 ==> result == r + 32) && (!(r >= 65 && r <= 90) ==> result == r)
+
+// ---------------------------------------------------------------------------------------
+// Decoding a whole page into a node object: cell k of the node is the decode of the cell whose
+// page offset is the k-th entry of the cell pointer array (file format section 1.5).
+//@ smt nodes
+//@ (declare-fun tl_cell_ok (S_db_tableLeafCell (Array (_ BitVec 64) (_ BitVec 8)) Int (_ BitVec 64) (_ BitVec 64) (_ BitVec 64)) Bool)
+//@ (declare-fun ti_cell_ok (S_db_tableInteriorCell (Array (_ BitVec 64) (_ BitVec 8)) (_ BitVec 64) (_ BitVec 64)) Bool)
+//@ (declare-fun il_cell_ok (S_db_cellPayload (Array (_ BitVec 64) (_ BitVec 8)) Int (_ BitVec 64) (_ BitVec 64) (_ BitVec 64)) Bool)
+//@ (declare-fun ii_cell_ok (S_db_indexInteriorCell (Array (_ BitVec 64) (_ BitVec 8)) Int (_ BitVec 64) (_ BitVec 64) (_ BitVec 64)) Bool)
+//@ (define-fun cellptr ((a (Array (_ BitVec 64) (_ BitVec 8))) (o (_ BitVec 64)) (i (_ BitVec 64))) (_ BitVec 64) (zx16 (be16 a (bvadd o (bvmul #x0000000000000002 i)))))
+
+// Definitions of the cell predicates, revealed only to the four cell parsers.
+//@ axioms cell_defs
+//@ (assert (forall ((c S_db_tableLeafCell) (a (Array (_ BitVec 64) (_ BitVec 8))) (reg Int) (o (_ BitVec 64)) (n (_ BitVec 64)) (u (_ BitVec 64))) (! (= (tl_cell_ok c a reg o n u) (and (= (S_db_tableLeafCell_0_left c) (tl_rowid a o n)) (= (S_db_cellPayload_0_Length (S_db_tableLeafCell_1_payload c)) (tl_plen a o n)) (and (= (s_reg (S_db_cellPayload_1_Payload (S_db_tableLeafCell_1_payload c))) reg) (= (s_off (S_db_cellPayload_1_Payload (S_db_tableLeafCell_1_payload c))) (bvadd o (tl_hdr a o n))) (=> (bvsle (S_db_cellPayload_0_Length (S_db_tableLeafCell_1_payload c)) (x_table u)) (= (S_db_cellPayload_2_Overflow (S_db_tableLeafCell_1_payload c)) #x0000000000000000)) (=> (bvsgt (S_db_cellPayload_0_Length (S_db_tableLeafCell_1_payload c)) (x_table u)) (and (= (s_len (S_db_cellPayload_1_Payload (S_db_tableLeafCell_1_payload c))) (local_size (S_db_cellPayload_0_Length (S_db_tableLeafCell_1_payload c)) u (x_table u))) (= (S_db_cellPayload_2_Overflow (S_db_tableLeafCell_1_payload c)) (zx32 (be32 a (bvadd (bvadd o (tl_hdr a o n)) (local_size (S_db_cellPayload_0_Length (S_db_tableLeafCell_1_payload c)) u (x_table u)))))))) (wf_payload (S_db_tableLeafCell_1_payload c))))) :pattern ((tl_cell_ok c a reg o n u)))))
+//@ (assert (forall ((c S_db_tableInteriorCell) (a (Array (_ BitVec 64) (_ BitVec 8))) (o (_ BitVec 64)) (n (_ BitVec 64))) (! (= (ti_cell_ok c a o n) (and (= (S_db_tableInteriorCell_0_left c) (zx32 (be32 a o))) (= (S_db_tableInteriorCell_1_key c) (ti_key a o n)))) :pattern ((ti_cell_ok c a o n)))))
+//@ (assert (forall ((c S_db_cellPayload) (a (Array (_ BitVec 64) (_ BitVec 8))) (reg Int) (o (_ BitVec 64)) (n (_ BitVec 64)) (u (_ BitVec 64))) (! (= (il_cell_ok c a reg o n u) (and (= (S_db_cellPayload_0_Length c) (il_plen a o n)) (and (= (s_reg (S_db_cellPayload_1_Payload c)) reg) (= (s_off (S_db_cellPayload_1_Payload c)) (bvadd o (il_n1 a o n))) (=> (bvsle (S_db_cellPayload_0_Length c) (x_index u)) (= (S_db_cellPayload_2_Overflow c) #x0000000000000000)) (=> (bvsgt (S_db_cellPayload_0_Length c) (x_index u)) (and (= (s_len (S_db_cellPayload_1_Payload c)) (local_size (S_db_cellPayload_0_Length c) u (x_index u))) (= (S_db_cellPayload_2_Overflow c) (zx32 (be32 a (bvadd (bvadd o (il_n1 a o n)) (local_size (S_db_cellPayload_0_Length c) u (x_index u)))))))) (wf_payload c)))) :pattern ((il_cell_ok c a reg o n u)))))
+//@ (assert (forall ((c S_db_indexInteriorCell) (a (Array (_ BitVec 64) (_ BitVec 8))) (reg Int) (o (_ BitVec 64)) (n (_ BitVec 64)) (u (_ BitVec 64))) (! (= (ii_cell_ok c a reg o n u) (and (= (S_db_indexInteriorCell_0_left c) (zx32 (be32 a o))) (il_cell_ok (S_db_indexInteriorCell_1_payload c) a reg (bvadd o #x0000000000000004) (bvsub n #x0000000000000004) u))) :pattern ((ii_cell_ok c a reg o n u)))))
+
+//@ func db.newLeafTableBtree
+//@   props C01 C04 C05 C14
+//@   pure
+//@   requires legal_ps(pageSize) && 0 <= count && count <= 65535
+//@   ensures [shape] err == nil ==> r0 != nil && len(r0.cells) == count
+//@   ensures [decode] err == nil ==> (forall i int :: 0 <= i && i < count ==> tl_cell_ok(r0.cells[i], mem(content), reg(content), off(content) + cellptr(mem(pointers), off(pointers), i), len(content) - cellptr(mem(pointers), off(pointers), i), pageSize))
+//@   loop 1 invariant 0 <= $i && $i <= len(cells) && len(cells) == count && len(leafs) == count && fresh(leafs) && fresh(cells)
+//@   loop 1 invariant forall j int :: 0 <= j && j < len(cells) ==> cells[j] == cellptr(mem(pointers), off(pointers), j) && cells[j] <= len(content)
+//@   loop 1 invariant forall j int :: 0 <= j && j < $i ==> tl_cell_ok(leafs[j], mem(content), reg(content), off(content) + cellptr(mem(pointers), off(pointers), j), len(content) - cellptr(mem(pointers), off(pointers), j), pageSize)
+//@   loop 1 decreases len(cells) - $i
+
+// Consequence of the definitions (proved as lemma cell_wf_lemma below): decoded cells carry well-formed payloads.
+//@ axioms cell_wf
+//@ (assert (forall ((c S_db_tableLeafCell) (a (Array (_ BitVec 64) (_ BitVec 8))) (reg Int) (o (_ BitVec 64)) (n (_ BitVec 64)) (u (_ BitVec 64))) (! (=> (tl_cell_ok c a reg o n u) (wf_payload (S_db_tableLeafCell_1_payload c))) :pattern ((tl_cell_ok c a reg o n u)))))
+//@ (assert (forall ((c S_db_cellPayload) (a (Array (_ BitVec 64) (_ BitVec 8))) (reg Int) (o (_ BitVec 64)) (n (_ BitVec 64)) (u (_ BitVec 64))) (! (=> (il_cell_ok c a reg o n u) (wf_payload c)) :pattern ((il_cell_ok c a reg o n u)))))
+//@ (assert (forall ((c S_db_indexInteriorCell) (a (Array (_ BitVec 64) (_ BitVec 8))) (reg Int) (o (_ BitVec 64)) (n (_ BitVec 64)) (u (_ BitVec 64))) (! (=> (ii_cell_ok c a reg o n u) (wf_payload (S_db_indexInteriorCell_1_payload c))) :pattern ((ii_cell_ok c a reg o n u)))))
+
+//@ lemma cell_wf_lemma
+//@   props C01 C02 C05
+//@   uses cell_defs
+//@   assert forall c S_db_tableLeafCell, a Bytes, reg Int, o uint64, n uint64, u uint64 :: tl_cell_ok(c, a, reg, o, n, u) ==> wf_payload(c.payload)
+//@   assert forall c S_db_cellPayload, a Bytes, reg Int, o uint64, n uint64, u uint64 :: il_cell_ok(c, a, reg, o, n, u) ==> wf_payload(c)
+//@   assert forall c S_db_indexInteriorCell, a Bytes, reg Int, o uint64, n uint64, u uint64 :: ii_cell_ok(c, a, reg, o, n, u) ==> wf_payload(c.payload)
+
+//@ func db.newInteriorTableBtree
+//@   props C01 C04 C05 C14
+//@   pure
+//@   requires 0 <= count && count <= 65535
+//@   ensures [shape] err == nil ==> r0 != nil && len(r0.cells) == count && r0.rightmost == rightmost
+//@   ensures [decode] err == nil ==> (forall i int :: 0 <= i && i < count ==> ti_cell_ok(r0.cells[i], mem(content), off(content) + cellptr(mem(pointers), off(pointers), i), len(content) - cellptr(mem(pointers), off(pointers), i)))
+//@   loop 1 invariant 0 <= $i && $i <= len(cells) && len(cells) == count && len(cs) == count && fresh(cs) && fresh(cells)
+//@   loop 1 invariant forall j int :: 0 <= j && j < len(cells) ==> cells[j] == cellptr(mem(pointers), off(pointers), j) && cells[j] <= len(content)
+//@   loop 1 invariant forall j int :: 0 <= j && j < $i ==> ti_cell_ok(cs[j], mem(content), off(content) + cellptr(mem(pointers), off(pointers), j), len(content) - cellptr(mem(pointers), off(pointers), j))
+//@   loop 1 decreases len(cells) - $i
+
+//@ func db.newLeafIndex
+//@   props C02 C03 C13 C05 C14
+//@   pure
+//@   requires legal_ps(pageSize) && 0 <= count && count <= 65535
+//@   ensures [shape] err == nil ==> r0 != nil && len(r0.cells) == count
+//@   ensures [decode] err == nil ==> (forall i int :: 0 <= i && i < count ==> il_cell_ok(r0.cells[i], mem(content), reg(content), off(content) + cellptr(mem(pointers), off(pointers), i), len(content) - cellptr(mem(pointers), off(pointers), i), pageSize))
+//@   loop 1 invariant 0 <= $i && $i <= len(cells) && len(cells) == count && len(cs) == count && fresh(cs) && fresh(cells)
+//@   loop 1 invariant forall j int :: 0 <= j && j < len(cells) ==> cells[j] == cellptr(mem(pointers), off(pointers), j) && cells[j] <= len(content)
+//@   loop 1 invariant forall j int :: 0 <= j && j < $i ==> il_cell_ok(cs[j], mem(content), reg(content), off(content) + cellptr(mem(pointers), off(pointers), j), len(content) - cellptr(mem(pointers), off(pointers), j), pageSize)
+//@   loop 1 decreases len(cells) - $i
+
+//@ func db.newInteriorIndex
+//@   props C02 C03 C13 C05 C14
+//@   pure
+//@   requires legal_ps(pageSize) && 0 <= count && count <= 65535
+//@   ensures [shape] err == nil ==> r0 != nil && len(r0.cells) == count && r0.rightmost == rightmost
+//@   ensures [decode] err == nil ==> (forall i int :: 0 <= i && i < count ==> ii_cell_ok(r0.cells[i], mem(content), reg(content), off(content) + cellptr(mem(pointers), off(pointers), i), len(content) - cellptr(mem(pointers), off(pointers), i), pageSize))
+//@   loop 1 invariant 0 <= $i && $i <= len(cells) && len(cells) == count && len(cs) == count && fresh(cs) && fresh(cells)
+//@   loop 1 invariant forall j int :: 0 <= j && j < len(cells) ==> cells[j] == cellptr(mem(pointers), off(pointers), j) && cells[j] <= len(content)
+//@   loop 1 invariant forall j int :: 0 <= j && j < $i ==> ii_cell_ok(cs[j], mem(content), reg(content), off(content) + cellptr(mem(pointers), off(pointers), j), len(content) - cellptr(mem(pointers), off(pointers), j), pageSize)
+//@   loop 1 decreases len(cells) - $i
+
+// newBtree: page header at offset HB (100 on page 1, else 0): type byte, cell count at HB+3,
+// right-most pointer at HB+8 (interior pages), cell pointer array at HB+8 (leaf) or HB+12 (interior);
+// cell pointers are offsets from the start of the page.
+//@ macro HB(f) = ite(f, 100, 0)
+//@ macro PTYPE(b, f) = byte_at(mem(b), off(b), HB(f))
+//@ macro NCELLS(b, f) = zx16(be16(mem(b), off(b) + HB(f) + 3))
+//@ macro CP(b, f, at, i) = cellptr(mem(b), off(b) + HB(f) + at, i)
+
+//@ func db.newBtree
+//@   props C01 C02 C04 C05 C14
+//@   pure
+//@   uses cell_wf
+//@   requires legal_ps(pageSize) && len(b) == pageSize
+//@   ensures [unknown-type] PTYPE(b, isFileHeader) != 13 && PTYPE(b, isFileHeader) != 5 && PTYPE(b, isFileHeader) != 10 && PTYPE(b, isFileHeader) != 2 ==> err != nil
+//@   ensures [kind] err == nil ==> r0 != nil && (PTYPE(b, isFileHeader) == 13 ==> hasType(r0, "*db.tableLeaf")) && (PTYPE(b, isFileHeader) == 5 ==> hasType(r0, "*db.tableInterior")) && (PTYPE(b, isFileHeader) == 10 ==> hasType(r0, "*db.indexLeaf")) && (PTYPE(b, isFileHeader) == 2 ==> hasType(r0, "*db.indexInterior"))
+//@   ensures [tleaf] err == nil && PTYPE(b, isFileHeader) == 13 ==> deref(r0, "*db.tableLeaf") != nil && len(deref(r0, "*db.tableLeaf").cells) == NCELLS(b, isFileHeader) && tleaf_wf(deref(r0, "*db.tableLeaf")) && (forall i int :: 0 <= i && i < NCELLS(b, isFileHeader) ==> tl_cell_ok(deref(r0, "*db.tableLeaf").cells[i], mem(b), reg(b), off(b) + CP(b, isFileHeader, 8, i), len(b) - CP(b, isFileHeader, 8, i), pageSize))
+//@   ensures [tint] err == nil && PTYPE(b, isFileHeader) == 5 ==> deref(r0, "*db.tableInterior") != nil && len(deref(r0, "*db.tableInterior").cells) == NCELLS(b, isFileHeader) && deref(r0, "*db.tableInterior").rightmost == zx32(be32(mem(b), off(b) + HB(isFileHeader) + 8)) && (forall i int :: 0 <= i && i < NCELLS(b, isFileHeader) ==> ti_cell_ok(deref(r0, "*db.tableInterior").cells[i], mem(b), off(b) + CP(b, isFileHeader, 12, i), len(b) - CP(b, isFileHeader, 12, i)))
+//@   ensures [ileaf] err == nil && !isFileHeader && PTYPE(b, isFileHeader) == 10 ==> deref(r0, "*db.indexLeaf") != nil && len(deref(r0, "*db.indexLeaf").cells) == NCELLS(b, isFileHeader) && ileaf_wf(deref(r0, "*db.indexLeaf")) && (forall i int :: 0 <= i && i < NCELLS(b, isFileHeader) ==> il_cell_ok(deref(r0, "*db.indexLeaf").cells[i], mem(b), reg(b), off(b) + CP(b, isFileHeader, 8, i), len(b) - CP(b, isFileHeader, 8, i), pageSize))
+//@   ensures [iint] err == nil && !isFileHeader && PTYPE(b, isFileHeader) == 2 ==> deref(r0, "*db.indexInterior") != nil && len(deref(r0, "*db.indexInterior").cells) == NCELLS(b, isFileHeader) && iint_wf(deref(r0, "*db.indexInterior")) && deref(r0, "*db.indexInterior").rightmost == zx32(be32(mem(b), off(b) + 8)) && (forall i int :: 0 <= i && i < NCELLS(b, isFileHeader) ==> ii_cell_ok(deref(r0, "*db.indexInterior").cells[i], mem(b), reg(b), off(b) + CP(b, isFileHeader, 12, i), len(b) - CP(b, isFileHeader, 12, i), pageSize))
